@@ -32,11 +32,12 @@ const (
 	PolRR              // round robin with fixed quantum
 	PolTargeted        // like uniform, but decision points only at sites that touch shared-looking state
 	PolSync            // decision points only where the current task releases or is about to take a lock; long stalls
+	PolPark            // decision points only at statements that mention a package-level variable (and exit yields); long stalls
 	PolReplay          // apply a recorded decision list
 	NumPolicies = PolReplay
 )
 
-var PolicyNames = [...]string{"uniform", "pct", "single", "rr", "targeted", "sync", "replay"}
+var PolicyNames = [...]string{"uniform", "pct", "single", "rr", "targeted", "sync", "park", "replay"}
 
 // Task status.
 const (
@@ -279,6 +280,21 @@ func Y(site uint32) {
 	if cfg.Policy == PolSync {
 		return // decision points are the sync points only (and task exits)
 	}
+	if cfg.Policy == PolPark {
+		// park the task right where it touches process-wide state (a package-level
+		// variable) or has just run its deferred calls, and let the others complete
+		// whole operations meanwhile: first-use initialisation, counters, try-locks
+		if inOp[me] && site < uint32(len(Sites)) && Sites[site].Flags&(FlagGlobal|FlagExit) != 0 {
+			q := cfg.SyncQ
+			if q < 1 {
+				q = 1
+			}
+			if rng.Intn(q) == 0 {
+				park(site)
+			}
+		}
+		return
+	}
 	countdown--
 	if countdown > 0 {
 		return
@@ -365,6 +381,15 @@ func SyncPoint() {
 	if rng.Intn(q) != 0 {
 		return
 	}
+	park(SiteSync)
+}
+
+// park freezes the current task for a long time (until nobody else can run, or a
+// heavy-tailed number of steps) and hands the baton to another runnable task.
+//
+//go:norace
+func park(site uint32) {
+	me := cur
 	var cand [MaxTasks]int32
 	n := 0
 	for i := 0; i < nTasks; i++ {
@@ -387,7 +412,7 @@ func SyncPoint() {
 		}
 		stalled[me] = step + l
 	}
-	switchTo(cand[rng.Intn(n)], SiteSync)
+	switchTo(cand[rng.Intn(n)], site)
 }
 
 // LockEvent tells the scheduler that some lock, condition or wait group changed
